@@ -21,7 +21,8 @@ enum Stmt { X(Expr), If(Cond, Vec<Stmt>, Vec<Stmt>), Loop(bool, u32, Vec<Stmt>),
 #[derive(Clone, Debug, PartialEq)]
 enum Kind { Body, Lam, LeafRet, LeafImp }
 #[derive(Clone, Debug)]
-struct Func { nogc: bool, parent: i64, kind: Kind, body: Vec<Stmt> }
+struct Func { nogc: bool, parent: i64, kind: Kind, body: Vec<Stmt>, /// inline decorators: 0 none, 1 @inline first, 2 @inline_always first, 3 @inline last, 4 @inline_always last (relative to @no_gc)
+    deco: u8 }
 #[derive(Clone, Debug)]
 struct Prog { n0: i64, fns: Vec<Func>, main: Vec<Stmt> }
 
@@ -129,10 +130,14 @@ fn p_prog(x: &Sx) -> Result<Prog, String> {
             "fn" => {
                 let nogc = matches!(&a[0], Sx::A(s) if s == "nogc");
                 let parent = sx_int(&a[1])?;
-                let kind = match &a[2] { Sx::A(s) => match s.as_str() {
-                    "body" => Kind::Body, "lam" => Kind::Lam, "leafret" => Kind::LeafRet, "leafimp" => Kind::LeafImp,
-                    k => return Err(format!("kind? {}", k)) }, _ => return Err("kind".into()) };
-                fns.push(Func { nogc, parent, kind, body: p_block(&a[3..])? });
+                let (kind, deco) = match &a[2] { Sx::A(s) => {
+                    let mut it = s.split('@');
+                    let k = match it.next().unwrap_or("") {
+                        "body" => Kind::Body, "lam" => Kind::Lam, "leafret" => Kind::LeafRet, "leafimp" => Kind::LeafImp,
+                        k => return Err(format!("kind? {}", k)) };
+                    (k, it.next().and_then(|d| d.parse::<u8>().ok()).unwrap_or(0))
+                }, _ => return Err("kind".into()) };
+                fns.push(Func { nogc, parent, kind, body: p_block(&a[3..])?, deco });
             }
             "main" => main = p_block(a)?,
             _ => return Err(format!("prog item? {}", h)),
@@ -164,6 +169,7 @@ fn s_prog(p: &Prog) -> String {
     let mut o = format!("(prog {}", p.n0);
     for f in &p.fns {
         let k = match f.kind { Kind::Body => "body", Kind::Lam => "lam", Kind::LeafRet => "leafret", Kind::LeafImp => "leafimp" };
+        let k = if f.deco != 0 { format!("{}@{}", k, f.deco) } else { k.to_string() };
         o.push_str(&format!(" (fn {} {} {} {})", if f.nogc { "nogc" } else { "gc" }, f.parent, k, s_block(&f.body)));
     }
     o.push_str(&format!(" (main {}))", s_block(&p.main)));
@@ -272,7 +278,12 @@ impl<'a> Pr<'a> {
         if f >= self.p.fns.len() { return; }
         let fu = self.p.fns[f].clone();
         let nm = self.name(f);
-        if fu.nogc && fu.kind != Kind::Lam { self.line(ind, "@no_gc"); }
+        if fu.kind != Kind::Lam {
+            // decorator combinations, in both orders: the inliner must leave a @no_gc function alone whatever else it carries
+            match fu.deco { 1 => self.line(ind, "@inline"), 2 => self.line(ind, "@inline_always"), _ => {} }
+            if fu.nogc { self.line(ind, "@no_gc"); }
+            match fu.deco { 3 => self.line(ind, "@inline"), 4 => self.line(ind, "@inline_always"), _ => {} }
+        }
         match fu.kind {
             Kind::LeafRet => self.line(ind, &format!("fn {}(a, b) {{ return a + b }}", nm)),
             Kind::LeafImp => self.line(ind, &format!("fn {}(a, b) {{ a + b }}", nm)),
@@ -537,7 +548,10 @@ fn gen_prog(rng: &mut Rng, known: bool) -> Prog {
             }
             body.extend(rest);
         }
-        fns.push(Func { nogc: g.nogc[f], parent: g.parent[f], kind: kinds[f].clone(), body });
+        // half of the leaf functions and a fifth of the others carry @inline / @inline_always, before or after @no_gc
+        let deco = if kinds[f] == Kind::Lam { 0 } else if g.leaf[f] { if g.rng.chance(1, 2) { 1 + g.rng.below(4) as u8 } else { 0 } }
+                   else if g.rng.chance(1, 5) { 1 + g.rng.below(4) as u8 } else { 0 };
+        fns.push(Func { nogc: g.nogc[f], parent: g.parent[f], kind: kinds[f].clone(), body, deco });
     }
     let mut main = g.block(-1, 1, false, 4);
     if let Some(s) = g.call_stmt(-1) { let pos = g.rng.below(main.len() as u64 + 1) as usize; main.insert(pos, s); }
@@ -602,13 +616,19 @@ fn main() {
         let _ = run_on_vm(&mut vm2, PRELUDE, 0, 1_000_000);
         let r2 = run_on_vm(&mut vm2, "@no_gc\nfn pr_h(n, z) {\n  zq = 10 / z\n  return n\n}\npr_h(1, zz)\n", 0, 1_000_000);
         let restores = match (r2.class.as_str(), vm2.no_gc_depth()) { ("runtime:DivisionByZero", 0) => "true", ("runtime:DivisionByZero", 1) => "false", _ => "PROBE-FAILED" };
-        // does the inliner leave @no_gc functions alone?  (-O2; `a + b` as trailing value)
-        let mut vm3 = aelys_driver::new_vm_with_config(Default::default(), Vec::new()).unwrap();
-        let _ = run_on_vm(&mut vm3, PRELUDE, 2, 1_000_000);
-        verif::gc_counters_reset();
-        let r3 = run_on_vm(&mut vm3, "@no_gc\nfn pr_g(a, b) { a + b }\nacc = pr_g(acc, sx)\nacc\n", 2, 1_000_000);
-        let c3 = verif::gc_counters();
-        let skips = if r3.class != "ok" || c3.0 != 2 { "PROBE-FAILED" } else if c3.1 == 1 { "true" } else { "false" };
+        // does the inliner leave @no_gc functions alone?  (-O2; `a + b` as trailing value; alone and combined with
+        // @inline / @inline_always before and after @no_gc)
+        let mut skips = "true";
+        for (k, decos) in ["@no_gc", "@inline\n@no_gc", "@inline_always\n@no_gc", "@no_gc\n@inline", "@no_gc\n@inline_always"].iter().enumerate() {
+            let mut vm3 = aelys_driver::new_vm_with_config(Default::default(), Vec::new()).unwrap();
+            let _ = run_on_vm(&mut vm3, PRELUDE, 2, 1_000_000);
+            verif::gc_counters_reset();
+            let src = format!("{}\nfn pr_g{}(a, b) {{ a + b }}\nacc = pr_g{}(acc, sx)\nacc\n", decos, k, k);
+            let r3 = run_on_vm(&mut vm3, &src, 2, 1_000_000);
+            let c3 = verif::gc_counters();
+            if r3.class != "ok" || c3.0 != 2 { skips = "PROBE-FAILED"; break; }
+            if c3.1 != 1 { skips = "false"; }
+        }
         println!("error_restores_depth={} inliner_skips_no_gc={}", restores, skips);
         return;
     }
